@@ -406,3 +406,37 @@ package terminal
 //@   requires text.ValidPattern(regexp) && 0 <= groupIndex && groupIndex <= text.GroupsOf("^(?:" + regexp + ")")
 //@   ensures  r != nil
 //@   assigns  nothing
+
+//@ -- ------------------------------------------------------------ renderers: read-only, total on a node that exists
+//@ func (b *BoolNode) String() (r string)
+//@   props C07,C14
+//@   requires b != nil
+//@   assigns  nothing
+//@ func (c *CharNode) String() (r string)
+//@   props C07,C14
+//@   requires c != nil
+//@   assigns  nothing
+//@ func (f *FloatNode) String() (r string)
+//@   props C07,C14
+//@   requires f != nil
+//@   assigns  nothing
+//@ func (i *IntegerNode) String() (r string)
+//@   props C07,C14
+//@   requires i != nil
+//@   assigns  nothing
+//@ func (n *NilNode) String() (r string)
+//@   props C07,C14
+//@   requires n != nil
+//@   assigns  nothing
+//@ func (o *OpNode) String() (r string)
+//@   props C07,C14
+//@   requires o != nil
+//@   assigns  nothing
+//@ func (s *StringNode) String() (r string)
+//@   props C07,C14
+//@   requires s != nil
+//@   assigns  nothing
+//@ func (t *TimeDurationNode) String() (r string)
+//@   props C07,C14
+//@   requires t != nil
+//@   assigns  nothing
